@@ -1,5 +1,6 @@
 """C19 Outgoing datagrams go out the transport their address designates."""
 from ..lib import *
+from ..booltab import Unsupported
 
 T = "iroh::socket::transports::"
 MMA = "iroh::socket::mapped_addrs::MultipathMappedAddr"
@@ -262,23 +263,13 @@ def ip_routing(F, rep, body):
         rep.ob("ip-table", not bad, site(f), "is_valid_send_addr as a truth function (256 valuations): with a source: same family and (wildcard or bound address == source); without: same family and (net contains destination, or for v6 link-local destination on the socket's scope); mismatches: %s" % bad[:3], skey(F, f, "send-addr-function"))
     except Unsupported as e:
         rep.ob("ip-table", False, site(f), "is_valid_send_addr could not be extracted as a truth function (unrecognised idiom, fails closed): %s" % e, skey(F, f, "send-addr-function"))
-    # ---- Config::is_valid_default_addr depends on is_default only
+    # ---- Config::is_valid_default_addr as a function of (socket family, source?, families, flag)
     g = get_fn(F, rep, IPC + "Config::is_valid_default_addr")
-    n_def = 0
-    for b, i, rv in returns_of(g):
-        if i is None:
-            ok, why = False, "a call result"
-        elif rv["k"] == "use" and rv["o"]["k"] == "const":
-            ok, why = "false" in str(rv["o"].get("v")), "constant %s" % rv["o"].get("v")
-        elif rv["k"] == "use":
-            x = copy_sources(g, op_base(rv["o"]))
-            ok, why = x == {("arg", 1, ("is_default",))}, "copy of %s" % sorted(map(str, x))
-            n_def += ok
-        else:
-            ok, why = False, rv["k"]
-        rep.ob("ip-table", ok, site(g, b), "default-route predicate answers with the socket's is_default flag or false: %s" % why, skey(F, g, "default-answer"))
-    rep.floor("ip-table", "is_default answers (v4/v6 x with/without source)", n_def, 4)
-    rep.ob("ip-table", not list(g.calls()), site(g), "no other computation in the default-route predicate", skey(F, g, "default-pure"))
+    try:
+        bad = default_addr_function(F, g)
+        rep.ob("ip-table", not bad, site(g), "is_valid_default_addr, evaluated on all 32 valuations of (socket family, has source, source family, destination family, is_default flag), equals `is_default && socket family == family of the source if there is one else of the destination`; mismatches: %s" % bad[:4], skey(F, g, "default-function"))
+    except Unsupported as e:
+        rep.ob("ip-table", False, site(g), "is_valid_default_addr could not be evaluated (unrecognised idiom, fails closed): %s" % e, skey(F, g, "default-function"))
     # thin forwarders on IpSender
     for nm in ("is_valid_send_addr", "is_valid_default_addr"):
         h = get_fn(F, rep, IPC + "IpSender::" + nm)
@@ -403,3 +394,149 @@ def ref_of_local(f, l):
             return l
         l = nxt
     return l
+
+
+def default_addr_function(F, g):
+    """Concrete evaluation of the MIR of Config::is_valid_default_addr over the finite
+    valuation space; returns the list of mismatching valuations."""
+    import itertools
+    adt = F.adt(IPC + "Config")
+    vidx = {v["name"]: i for i, v in enumerate(adt["variants"])}
+    if set(vidx) != {"V4", "V6"}:
+        raise Unsupported("Config variants %s" % sorted(vidx))
+
+    def tuple_def(l):
+        ds = [st["rv"] for b, i, st in g.stmts() if st["k"] == "a" and st["lhs"] == {"l": l}]
+        return ds[0] if len(ds) == 1 and ds[0]["k"] == "agg" and ds[0].get("ak") == "tuple" else None
+
+    def kind(pl):
+        base = pl["l"]
+        flds = [(e[2] if e[2] else str(e[1])) for e in pl.get("p", []) if e[0] == "f"]
+        for _ in range(6):
+            td = tuple_def(base)
+            if flds and td is not None and flds[0].isdigit() and int(flds[0]) < len(td["ops"]) and op_base(td["ops"][int(flds[0])]) is not None:
+                base = op_base(td["ops"][int(flds[0])])
+                flds = flds[1:]
+            else:
+                break
+        srcs = {(x[0], x[1], tuple(x[2]) + tuple(flds)) for x in copy_sources(g, base) if len(x) == 3} if not (1 <= base <= g.argc and not [1 for b, i, st in g.stmts() if st["k"] == "a" and st["lhs"] == {"l": base}]) else {("arg", base, tuple(flds))}
+        if len(srcs) != 1:
+            return None
+        k, n, fl = next(iter(srcs))
+        if k != "arg":
+            return None
+        if n == 1 and not fl:
+            return "sock"
+        if n == 1 and fl[-1:] == ("is_default",):
+            return "flag"
+        if n == 2 and not fl:
+            return "src_opt"
+        if n == 2 and fl == ("0",):
+            return "src"
+        if n == 3 and not fl:
+            return "dst"
+        return None
+    bad = []
+    for sock_v4, has_src, src_v4, dst_v4, flag in itertools.product((True, False), repeat=5):
+        env = {}
+
+        def val_of_place(pl):
+            k = kind(pl)
+            if k == "flag":
+                return flag
+            if not pl.get("p") and pl["l"] in env:
+                return env[pl["l"]]
+            if all(e[0] == "deref" for e in pl.get("p", [])) and pl["l"] in env:
+                return env[pl["l"]]
+            return None
+
+        def operand(o):
+            if o["k"] == "const":
+                v = str(o.get("v")).replace("const ", "")
+                if v in ("true", "false"):
+                    return v == "true"
+                m = re.match(r"^(-?\d+)_", v)
+                return int(m.group(1)) if m else None
+            return val_of_place(o["p"])
+        b, steps, result = 0, 0, None
+        while True:
+            steps += 1
+            if steps > 400:
+                raise Unsupported("loop")
+            blk = g.blocks[b]
+            for st in blk["s"]:
+                if st["k"] != "a" or st["lhs"].get("p"):
+                    continue
+                l, rv = st["lhs"]["l"], st["rv"]
+                v = None
+                if rv["k"] == "discr":
+                    k = kind(rv["p"])
+                    if k == "sock":
+                        v = vidx["V4"] if sock_v4 else vidx["V6"]
+                    elif k == "src_opt":
+                        v = 1 if has_src else 0
+                    elif k == "src":
+                        if not has_src:
+                            raise Unsupported("source family read without a source at bb%d" % b)
+                        v = 0 if src_v4 else 1
+                    elif k == "dst":
+                        v = 0 if dst_v4 else 1
+                    else:
+                        raise Unsupported("discriminant of an unrecognised place at bb%d" % b)
+                elif rv["k"] in ("use", "cast"):
+                    v = operand(rv["o"])
+                elif rv["k"] == "ref":
+                    v = val_of_place(rv["p"])
+                elif rv["k"] == "un" and rv.get("op") == "Not":
+                    x = operand(rv["a"])
+                    v = (not x) if isinstance(x, bool) else None
+                elif rv["k"] == "bin" and rv["op"] in ("Eq", "Ne", "BitAnd", "BitOr", "BitXor"):
+                    x, y = operand(rv["a"]), operand(rv["b"])
+                    if isinstance(x, bool) and isinstance(y, bool):
+                        v = {"Eq": x == y, "Ne": x != y, "BitAnd": x and y, "BitOr": x or y, "BitXor": x != y}[rv["op"]]
+                if v is None:
+                    env.pop(l, None)
+                else:
+                    env[l] = v
+            t = blk["t"]
+            if t["k"] == "return":
+                result = env.get(0)
+                break
+            if t["k"] in ("goto", "drop", "assert"):
+                b = t["t"]
+                continue
+            if t["k"] == "call":
+                n = callee_names(t)[0]
+                m = re.search(r"(IpAddr|SocketAddr|Ipv4Addr|Ipv6Addr)::(is_ipv4|is_ipv6)$", n)
+                a0 = t["args"][0] if t["args"] else None
+                k = None
+                if m and a0 is not None and a0["k"] in ("copy", "move"):
+                    pl = a0["p"]
+                    # receiver is `&place`: follow the reference
+                    rs = ref_source_place(g, pl["l"]) if not pl.get("p") else pl
+                    k = kind(rs) if rs else None
+                if m is None or k not in ("src", "dst") or t["dest"].get("p"):
+                    raise Unsupported("call %s at bb%d" % (n, b))
+                if k == "src" and not has_src:
+                    raise Unsupported("source family read without a source at bb%d" % b)
+                is4 = src_v4 if k == "src" else dst_v4
+                env[t["dest"]["l"]] = is4 if m.group(2) == "is_ipv4" else (not is4)
+                b = t["t"]
+                continue
+            if t["k"] == "switch":
+                x = operand(t["d"])
+                if x is None:
+                    raise Unsupported("branch on an unknown value at bb%d" % b)
+                x = int(x)
+                nxt = dict((int(p_), q_) for p_, q_ in t["targets"]).get(x, t["otherwise"])
+                b = nxt
+                continue
+            raise Unsupported("terminator %s at bb%d" % (t["k"], b))
+        want = flag and (sock_v4 == (src_v4 if has_src else dst_v4))
+        if not has_src and not src_v4:
+            pass
+        if result is None:
+            raise Unsupported("return value not determined")
+        if result != want:
+            bad.append("socket %s, %s, destination %s, is_default=%s -> %s" % ("v4" if sock_v4 else "v6", ("source %s" % ("v4" if src_v4 else "v6")) if has_src else "no source", "v4" if dst_v4 else "v6", flag, result))
+    return sorted(set(bad))
